@@ -900,7 +900,7 @@ def run(ck):
         return
 
     # ---- random trees
-    nrand = ck.scale(1500, 40000) * (4 if intensify else 1)
+    nrand = ck.scale(1500, 25000) * (4 if intensify else 1)
     lines, rt_trees, pm_cases = [], [], []
     for i in range(nrand):
         t = rand_tree(rng, 2 + rng.below(11))
@@ -909,7 +909,7 @@ def run(ck):
         if not pat:
             continue
         d = unbounded_depth(t)
-        cap = 40 if d == 0 else (12 if d == 1 else (7 if d == 2 else 4))
+        cap = 40 if d == 0 else (10 if d == 1 else (6 if d == 2 else 3))
         cf = rng.below(16) & ~EXT | (EXT if ere else 0)
         ss = [rand_subject(rng, cap) for _ in range(12)]
         lines.append(xline(cf, pat, [0, 1, "n", "m"], [0, 16, 32, 48], ss))
